@@ -189,9 +189,9 @@ def d2_small_date(ctx):
                 ctx.finding('D2', 'pattern/%s/%s' % (lang, p), 'date pattern %r (%s) does not bind both day and month' % (p, lang), site='SmartCalc::default')
 
 
-def d3_difference(ctx):
+def d3_difference(ctx, rid='D3'):
     """D3 'A to B' = |A - B| on the stored values"""
-    ctx.rule('D3', 'absolute, symmetric difference', floor=4)
+    ctx.rule(rid, 'absolute, symmetric difference', floor=4)
     b = ctx.facts.one(r'rules::duration_rules::to_duration$')
     ctx.fn(b)
     seen = set()
@@ -199,18 +199,18 @@ def d3_difference(ctx):
         if v != 'Ok':
             continue
         if inner[0] != 'aggr' or not inner[1].endswith('TokenType::Duration'):
-            ctx.finding('D3', 'to_duration/result-kind', "'A to B' yields %s" % render(inner)[:60], site=b.loc)
+            ctx.finding(rid, 'to_duration/result-kind', "'A to B' yields %s" % render(inner)[:60], site=b.loc)
             continue
         for a, c2 in alternatives(b, inner[2][0], _conds=conds):
             a = strip(a)
             if a[0] != 'call' or not re.search(r'ops::(arith::)?Sub.*>::sub$|::sub$', a[1]):
-                ctx.finding('D3', 'to_duration/not-a-difference', "'A to B' computes %s" % render(a)[:100], site=b.loc)
+                ctx.finding(rid, 'to_duration/not-a-difference', "'A to B' computes %s" % render(a)[:100], site=b.loc)
                 continue
             l, r = render(a[2][0]), render(a[2][1])
             m1 = re.fullmatch(r'tools::(get_time|get_date)\("(source|target)", fields\) as Some\.0\.#?0', l)
             m2 = re.fullmatch(r'tools::(get_time|get_date)\("(source|target)", fields\) as Some\.0\.#?0', r)
             if not m1 or not m2 or m1.group(1) != m2.group(1) or m1.group(2) == m2.group(2):
-                ctx.finding('D3', 'to_duration/operands', "'A to B' subtracts %s from %s; expected the two stored %s values themselves" % (r[:70], l[:70], 'date/time'), site=b.loc)
+                ctx.finding(rid, 'to_duration/operands', "'A to B' subtracts %s from %s; expected the two stored %s values themselves" % (r[:70], l[:70], 'date/time'), site=b.loc)
                 continue
             kind = m1.group(1)
             gt = [cond_str(d, vv) for d, vv in c2 if 'PartialOrd' in render(d) or ' Gt ' in render(d) or ' Lt ' in render(d)]
@@ -218,13 +218,13 @@ def d3_difference(ctx):
             want_false = 'PartialOrd::gt(%s, %s)=[0]' % (r, l)
             if want_true in gt or want_false in gt:
                 seen.add((kind, m1.group(2)))
-                ctx.ok('D3', '%s: %s - %s when it is the larger' % (kind, m1.group(2), m2.group(2)), 'gamma', site=b.loc)
+                ctx.ok(rid, '%s: %s - %s when it is the larger' % (kind, m1.group(2), m2.group(2)), 'gamma', site=b.loc)
             else:
-                ctx.finding('D3', 'to_duration/%s/guard' % kind, "'A to B' computes %s - %s under %s: not the absolute difference" % (m1.group(2), m2.group(2), gt), site=b.loc)
+                ctx.finding(rid, 'to_duration/%s/guard' % kind, "'A to B' computes %s - %s under %s: not the absolute difference" % (m1.group(2), m2.group(2), gt), site=b.loc)
     for kind in ('get_time', 'get_date'):
         for first in ('source', 'target'):
             if (kind, first) not in seen:
-                ctx.finding('D3', 'to_duration/%s/missing-%s-minus' % (kind, first), "'A to B' (%s) has no branch computing %s minus the other: the difference is not symmetric" % (kind[4:], first), site=b.loc)
+                ctx.finding(rid, 'to_duration/%s/missing-%s-minus' % (kind, first), "'A to B' (%s) has no branch computing %s minus the other: the difference is not symmetric" % (kind[4:], first), site=b.loc)
 
 
 def d4_day_constants(ctx):
